@@ -12,15 +12,19 @@ import (
 
 // H_step: per-call lemmas from canonical states (DESIGN §2.5, §6 C09a).
 // The state Can(P, m, Q) is produced through the public API only:
-//   SetMode(raw); Write(P)   P a symbolic well-formed fragment (shape)
-//   SetMode(m);   Write(Q)   Q = nq fully symbolic pending bytes (a wf fragment when m is raw)
+//
+//	SetMode(raw); Write(P)   P a symbolic well-formed fragment (shape)
+//	SetMode(m);   Write(Q)   Q = nq fully symbolic pending bytes (a wf fragment when m is raw)
+//
 // then ONE arbitrary SafeWriter operation with a symbolic payload is applied
 // (ManualBuffer mapping of the 19 operations), and the result is compared
 // with the result of the state before the call:
-//   C01 wf, C03 line-safe (any Q, any payload),
-//   C09 strip(post) = strip(pre) ++ esc(payload), delEnv(post) = delEnv(pre) ++ safe part
-//       (Q and payload valid UTF-8),
-//   C13 Len, C11 no panic and earlier output kept.
+//
+//	C01 wf, C03 line-safe (any Q, any payload),
+//	C09 strip(post) = strip(pre) ++ esc(payload), delEnv(post) = delEnv(pre) ++ safe part
+//	    (Q and payload valid UTF-8),
+//	C13 Len, C11 no panic and earlier output kept.
+//
 // p = [fragment shape, mode, nq, op, npayload]
 func H_step(p []int) {
 	shape, mode, nq, op, np := p[0], p[1], p[2], p[3], p[4]
@@ -50,6 +54,9 @@ func H_step(p []int) {
 	vAssert(wf, "C01/wf-step")
 	vAssert(wf, "C09/wf-step")
 	vAssert(ls, "C03/lineSafe-step")
+	if vProp("C03") {
+		vAssert(linesWF(post), "C03/each-line-wf-step")
+	}
 	vAssert(ls, "C09/lineSafe-step")
 	text, ok := o.payloadText()
 	if !ok || !validUTF8(Q) {
